@@ -1,0 +1,1029 @@
+//go:build verif
+
+package jsonrpc
+
+// Contracts for contract-based deductive verification (checked by /verif/tool, see /verif/DESIGN.md).
+// This file contains comments only; it is compiled only with the build tag `verif` and adds no code.
+
+//@ property C10 units: WithMaxRequestSize$1, NewServer, (*RPCServer).HandleRequest, websocketClient, normalizeID, (*wsConn).cancelCtx, (*wsConn).handleChanMessage, (*wsConn).handleChanClose, (*wsConn).handleResponse, (*wsConn).handleFrame, (*wsConn).frameExecutor, (*wsConn).handleCall, (*wsConn).readFrame, (*wsConn).nextMessage, (*handler).handleReader, (*handler).handle, rpcError, (*handler).createError, (response).MarshalJSON, (*handler).getSpan, (*JSONRPCError).val, (*rpcFunc).processResponse, (*client).makeOutChan$1$2
+//@ property C09 units: (*handler).handleReader$1, (*handler).handleReader$2, (*wsConn).handleCall$1, (*RPCServer).HandleRequest, (*handler).handleReader, (*handler).handle, (*handler).handle$1, rpcError, rpcError$1, (response).MarshalJSON, normalizeID, withLazyWriter, (*wsConn).handleCall, (*wsConn).handleOutChans$1
+//@ property C12 units: WithMethodNameFormatter$1, WithServerMethodNameFormatter$1, NewServer, (*RPCServer).Register, NewMergeClient, makeHandler, (*handler).register, (*handler).handle, processFuncOut, (*client).makeRpcFunc, NewMethodNameFormatter$1, (*RPCServer).AliasMethod, WithClientHandlerAlias$1, NewCustomClient
+//@ property C14 units: (*wsConn).setupPings$1, (*wsConn).setupPings$2, (*wsConn).setupPings$5$1, (*deadlineResetReader).Read, (*wsConn).nextWriter, (*wsConn).sendRequest, (*wsConn).setupPings, (*wsConn).setupPings$4, (*wsConn).handleWsConn, (*wsConn).tryReconnect, (*wsConn).tryReconnect$1, (*wsConn).handleOutChans, (*wsConn).handleCtxAsync, (*wsConn).nextMessage, (*wsConn).handleResponse, (*wsConn).handleCall, (*wsConn).handleCall$3, (*wsConn).cancelCtx, (*wsConn).handleChanMessage, (*wsConn).handleChanClose, (*wsConn).closeInFlight, (*wsConn).closeChans, (*wsConn).readFrame, (*wsConn).resetReadDeadline, withLazyWriter, (*lazyWriter).Write, (*lazyWriter).Write$1$1
+//@ property C05 units: WithReconnectBackoff$1, WithNoReconnect$1, websocketClient$1, (*RPCConnectionError).Error, (*RPCConnectionError).Unwrap, WithErrors$1, NewErrors, (*JSONRPCError).val, (*backoff).next, (*wsConn).tryReconnect, (*wsConn).tryReconnect$1, (*wsConn).handleWsConn, websocketClient, (*rpcFunc).handleRpcCall, (*wsConn).closeInFlight
+//@ property C03 units: websocketClient$3, (*client).setupRequestChan, (*deadlineResetReader).Read, (*wsConn).resetReadDeadline, (*wsConn).handleWsConn, (*wsConn).tryReconnect, (*wsConn).tryReconnect$1, (*wsConn).closeInFlight, (*wsConn).nextMessage, (*wsConn).readFrame, (*client).setupRequestChan$1, (*wsConn).sendRequest, (*wsConn).handleResponse, websocketClient
+//@ property C02 units: (*rpcFunc).handleRpcCall, normalizeID, (*client).makeRpcFunc, (*client).setupRequestChan$1, httpClient$1, NewCustomClient$1, (*wsConn).handleWsConn, (*wsConn).handleResponse, (*wsConn).closeInFlight, (*wsConn).frameExecutor, (*wsConn).handleFrame, (*wsConn).handleCall, (*handler).handle, rpcError$1
+//@ property C04 units: (*rpcFunc).handleRpcCall, (*client).makeRpcFunc, (*client).provide, httpClient$1, (*wsConn).handleWsConn, (*wsConn).frameExecutor, (*wsConn).handleFrame, (*wsConn).handleCall, (*handler).handle, (*wsConn).closeInFlight, (*wsConn).closeChans, (*wsConn).tryReconnect, (*wsConn).tryReconnect$1
+//@ property C06 units: (*client).setupRequestChan$1, (*wsConn).handleCtxAsync, (*wsConn).handleResponse, (*wsConn).cancelCtx, (*wsConn).handleCall, (*wsConn).handleCall$2, (*wsConn).handleCall$3, (*handler).handle, (*wsConn).closeInFlight, (*RPCServer).ServeHTTP, (*handler).handleReader, httpClient$1, (*wsConn).handleFrame, (*rpcFunc).handleRpcCall
+//@ property C15 units: (*handler).handleReader$1, (*wsConn).handleCall$1, (*lazyWriter).Write$1, websocketClient$2$1, (*RPCServer).handleWS$1, (*wsConn).handleWsConn, (*wsConn).handleCall, (*wsConn).closeInFlight, (*wsConn).nextWriter, (*wsConn).readFrame, (*wsConn).frameExecutor, (*client).sendRequest, (*client).setupRequestChan$1, (*wsConn).handleOutChans, (*wsConn).handleChanOut, withLazyWriter, (*lazyWriter).Write, (*lazyWriter).Write$1$1, (*RPCServer).handleWS
+//@ property C16 units: WithClientHandler$1, websocketClient$2$1, WithReverseClient$1$1, ExtractReverseClient, (*RPCServer).handleWS, (*RPCServer).ServeHTTP, (*client).setupRequestChan$1, (*wsConn).handleChanOut, websocketClient, WithClientHandlerAlias$1, (*wsConn).closeInFlight, (*wsConn).handleWsConn, (*wsConn).handleCall, (*handler).handle
+//@ property C07 units: (*client).makeOutChan$1, (*client).setupRequestChan, (*wsConn).handleOutChans, (*wsConn).handleOutChans$1, (*wsConn).handleChanOut, (*handler).handle, (*wsConn).handleResponse, (*wsConn).handleChanMessage, (*client).makeOutChan$1$1, (*client).makeOutChan$1$2, (*wsConn).handleFrame, (*param).MarshalJSON, (*param).UnmarshalJSON
+//@ property C08 units: (*client).makeOutChan$1, (*wsConn).setupPings$5$1, (*wsConn).handleChanOut, (*wsConn).handleOutChans, (*wsConn).handleChanClose, (*wsConn).closeChans, (*wsConn).handleChanMessage, (*wsConn).tryReconnect, (*wsConn).handleWsConn, (*client).makeOutChan$1$1, (*client).makeOutChan$1$2, (*wsConn).handleResponse, (*wsConn).resetReadDeadline
+//@ property C11 units: (*ErrClient).Error, (*ErrClient).Unwrap, WithErrors$1, WithServerErrors$1, (*client).setupRequestChan$1, (*handler).createError, (*Errors).Register, NewErrors, (*JSONRPCError).val, (*JSONRPCError).Error, (*rpcFunc).processResponse, (*rpcFunc).processError, (*handler).handle, (response).MarshalJSON, processFuncOut, (*wsConn).handleResponse, NewCustomClient
+//@ property C01 units: WithParamEncoder$1, WithParamDecoder$1, DecodeParams, NewCustomClient, httpClient, (*deadlineResetReader).Read, defaultConfig, defaultServerConfig, processFuncOut, (*param).MarshalJSON, (*param).UnmarshalJSON, (*client).makeRpcFunc, (*client).provide, (*rpcFunc).handleRpcCall, (*rpcFunc).processResponse, (*rpcFunc).processError, (*client).sendRequest, NewCustomClient$1, httpClient$1, (*client).setupRequestChan$1, (*handler).register, (*handler).handle, doCall, (response).MarshalJSON, (*wsConn).handleResponse, (*wsConn).handleCall, NewMethodNameFormatter$1, (*RPCServer).AliasMethod
+//@ property C13 units: doCall, (*handler).handle, rpcError$1, httpClient$1
+
+//@ -- ------------------------------------------------------------------ shared vocabulary
+//@ pred idok(x) := typeof(x) == #string || typeof(x) == #float64 || x == nil
+//@ pred wfHandler(h) := (h.hasCtx == 0 || h.hasCtx == 1) && h.nParams >= 0 && len(h.paramReceivers) == h.nParams && (h.hasRawParams ==> h.nParams >= 1) && (h.errOut == -1 || (0 <= h.errOut && h.errOut < NumOut(rtypeOf(h.handlerFunc)))) && (h.valOut == -1 || (0 <= h.valOut && h.valOut < NumOut(rtypeOf(h.handlerFunc)))) && (h.errOut != -1 ==> OutT(rtypeOf(h.handlerFunc), h.errOut) == errorType)
+//@ pred handlersOK(s) := s.methods != nil && (forall k: U :: present(s.methods, k) ==> wfHandler(s.methods[k])) && (forall t: U :: present(s.paramDecoders, t) ==> s.paramDecoders[t] != nil)
+//@ axiom error-typed-values: forall v: U :: rtypeOf(v) == errorType ==> (ifaceOf(v) == nil || istype(ifaceOf(v), #error))
+//@ axiom codec-typed-values: forall v: U :: rImplements(rtypeOf(v), errorCodecRT) ==> istype(ifaceOf(v), #RPCErrorCodec)
+//@ axiom marshalable-typed-values: forall v: U :: rImplements(rtypeOf(v), marshalableRT) ==> istype(ifaceOf(v), #marshalable)
+//@ pred wfRpcFunc(fn) := fn.client != nil && fn.nout >= 0 && (fn.valOut == -1 || (0 <= fn.valOut && fn.valOut < fn.nout)) && (fn.errOut == -1 || (0 <= fn.errOut && fn.errOut < fn.nout)) && (fn.hasCtx == 0 || fn.hasCtx == 1) && fn.nout == NumOut(fn.ftyp) && (fn.returnValueIsChannel ==> fn.valOut != -1) && (fn.valOut == -1 || fn.errOut == -1 || fn.valOut != fn.errOut)
+
+//@ -- output automaton of an HTTP reply: 0 empty, 1 one value, 2 '[' written, 3 array ends with a value, 4 array ends with ',', 5 closed, 9 malformed
+//@ pred tokOf(b) := ite(isbytes(b, "["), 1, ite(isbytes(b, ","), 2, ite(isbytes(b, "]"), 3, 0)))
+//@ pred step(s, t) := ite(t == 1, ite(s == 0, 2, 9), ite(t == 2, ite(s == 3, 4, 9), ite(t == 3, ite(s == 2 || s == 3, 5, 9), ite(s == 2 || s == 4, 3, 9))))
+//@ pred selected(s, m) := ite(present(s.methods, m), s.methods[m], s.methods[s.aliasedMethods[m]])
+//@ pred resolvable(s, m) := present(s.methods, m) || (s.aliasedMethods != nil && present(s.aliasedMethods, m) && present(s.methods, s.aliasedMethods[m]))
+//@ -- ------------------------------------------------------------------ locks
+//@ lockorder wsConn.writeLk < wsConn.errLk
+//@ lockorder wsConn.writeLk < wsConn.inflightLk
+//@ lockorder wsConn.chanHandlersLk < chanHandler.lk
+//@ guards wsConn.inflightLk: wsConn.inflight inv tables-nonnil: self.inflight != nil [C10,C14]
+//@ guards wsConn.handlingLk: wsConn.handling inv handling-ok: self.handling != nil && (forall k: U :: present(self.handling, k) ==> self.handling[k] != nil) [C10,C14]
+//@ pred sinksOK(c) := c.chanHandlers != nil && (forall k :: present(c.chanHandlers, k) ==> c.chanHandlers[k] != nil && c.chanHandlers[k].cb != nil)
+//@ guards wsConn.chanHandlersLk: wsConn.chanHandlers inv sinks-ok: sinksOK(self) [C10,C14,C08]
+//@ guards wsConn.errLk: wsConn.incomingErr [C14]
+//@ guards wsConn.writeLk: wsConn.conn(w), wsConn.stopPings(w) [C14]
+//@ sharedtype wsConn
+//@ immutable wsConn.connFactory, wsConn.reconnectBackoff, wsConn.pingInterval, wsConn.timeout, wsConn.handler, wsConn.requests, wsConn.pongs, wsConn.stop, wsConn.exiting, wsConn.readError, wsConn.frameExecQueue, wsConn.registerCh
+//@ unsync wsConn.conn: read without the lock by design; replaced only by the reconnect goroutine (under writeLk) before it starts the new reader
+//@ unsync wsConn.stopPings: called by the connection loop and the reconnect goroutine, which never run the call concurrently (reconnect goroutine is started by the loop and replaces it before the loop reads it again: not checked)
+//@ unsync wsConn.incoming: replaced by the connection loop only while no reader goroutine is running (not checked)
+//@ unsync wsConn.chanCtr: accessed with sync/atomic only
+//@ -- prohibitions: these calls do not occur in the module; introducing one breaks the stated discipline
+//@ -- Contracts on declarations (decided without a code path): the wire format and the constants both peers rely on
+//@ static request-wire-shape: jsontag(#request, "Jsonrpc") == "jsonrpc" && jsontag(#request, "ID") == "id,omitempty" && jsontag(#request, "Method") == "method" && jsontag(#request, "Params") == "params" && jsontag(#request, "Meta") == "meta,omitempty" [C09,C04,C01,C02]
+//@ static frame-wire-shape: jsontag(#frame, "Jsonrpc") == "jsonrpc" && jsontag(#frame, "ID") == "id,omitempty" && jsontag(#frame, "Method") == "method,omitempty" && jsontag(#frame, "Params") == "params,omitempty" && jsontag(#frame, "Result") == "result,omitempty" && jsontag(#frame, "Error") == "error,omitempty" && jsontag(#frame, "Meta") == "meta,omitempty" [C09,C04,C01,C02]
+//@ static client-response-wire-shape: jsontag(#clientResponse, "Jsonrpc") == "jsonrpc" && jsontag(#clientResponse, "Result") == "result" && jsontag(#clientResponse, "ID") == "id" && jsontag(#clientResponse, "Error") == "error,omitempty" [C09,C01,C02,C11]
+//@ static error-object-wire-shape: jsontag(#JSONRPCError, "Code") == "code" && jsontag(#JSONRPCError, "Message") == "message" && jsontag(#JSONRPCError, "Meta") == "meta,omitempty" && jsontag(#JSONRPCError, "Data") == "data,omitempty" [C09,C11]
+//@ static protocol-error-codes: rpcParseError == -32700 && rpcInvalidRequest == -32600 && rpcMethodNotFound == -32601 && rpcInvalidParams == -32602 [C09,C12]
+//@ static user-codes-start-above-the-generic-and-the-panic-code: FirstUserCode > 1 [C11,C13]
+//@ static connection-error-code-is-the-registered-one: eTempWSError == -1111111 [C05,C11]
+//@ static builtin-method-names: wsCancel == "xrpc.cancel" && chValue == "xrpc.ch.val" && chClose == "xrpc.ch.close" [C12,C06,C07,C08]
+//@ static raw-params-is-its-own-type: #RawParams != #json.RawMessage [C01,C09,C12]
+//@ -- Core units: the properties overlap (a call that hangs breaks C01, C02 and C03 alike), so for the functions every
+//@ -- property of a group rests on, ALL clauses count for every property of the group, whatever their tags say.
+//@ core C01 C02 C03 C04 C05 C06 C16: (*wsConn).handleWsConn, (*wsConn).tryReconnect, (*wsConn).tryReconnect$1, (*wsConn).nextMessage, (*wsConn).readFrame, (*wsConn).closeInFlight, (*wsConn).handleResponse, (*wsConn).sendRequest, (*client).setupRequestChan, (*client).setupRequestChan$1, (*wsConn).handleCall, (*wsConn).frameExecutor, (*wsConn).handleFrame
+//@ core C07 C08 C09 C15: (*wsConn).handleOutChans, (*wsConn).handleOutChans$1, (*wsConn).handleChanOut, (*wsConn).handleChanMessage, (*wsConn).handleChanClose, (*wsConn).closeChans, (*client).makeOutChan$1, (*client).makeOutChan$1$1, (*client).makeOutChan$1$2
+//@ core C09 C12: (*handler).handle, (*handler).handleReader, rpcError, rpcError$1, doCall
+//@ core C14: normalizeID
+//@ core C01 C02 C04 C05 C11 C16: (*rpcFunc).handleRpcCall, (*client).makeRpcFunc, (*rpcFunc).processResponse, (*rpcFunc).processError, (*client).sendRequest, processFuncOut, (*JSONRPCError).val, (*handler).createError
+//@ core C10: doCall
+//@ core C04 C09 C10 C13 C15: (*wsConn).handleCall, (*wsConn).handleCall$2, (*wsConn).handleCall$3, (*wsConn).readFrame, (*wsConn).frameExecutor
+//@ -- module-wide rules (global ...) of these properties are checked in EVERY function of the module, not only in the
+//@ -- units listed above: code added anywhere (a new helper, a new goroutine body, a callback) is held to them too
+//@ sweep C14, C02, C03, C04, C05, C06, C07, C08, C13, C15, C16, C01, C09, C12, C10, C11, C19, C20
+//@ -- ownership of the connection tables: which function may change which table (module-wide frame conditions)
+//@ global at mapdel wsConn.inflight: assert a-call-is-forgotten-only-once-answered: infunc("(*wsConn).handleResponse") [C02,C03,C16,C05]
+//@ global at mapset wsConn.inflight: assert calls-are-registered-only-by-the-connection-loop: infunc("(*wsConn).handleWsConn") [C02,C03]
+//@ global at store wsConn.inflight: assert in-flight-table-replaced-only-at-start-or-after-failing-all: infunc("(*wsConn).handleWsConn|(*wsConn).closeInFlight") [C02,C03,C05]
+//@ global at mapdel wsConn.chanHandlers: assert a-stream-is-forgotten-only-when-closed: infunc("(*wsConn).handleChanClose|(*wsConn).closeChans") [C08,C07]
+//@ global at mapset wsConn.chanHandlers: assert streams-are-registered-only-by-the-subscribing-response: infunc("(*wsConn).handleResponse") [C08,C07]
+//@ global at mapdel wsConn.handling: assert a-handler-context-is-forgotten-only-when-its-call-is-done: infunc("(*wsConn).handleCall$3") [C06,C15]
+//@ global at mapset wsConn.handling: assert handler-contexts-are-registered-only-at-dispatch: infunc("(*wsConn).handleCall") [C06,C15]
+//@ global at call (*wsConn).resetReadDeadline: assert read-deadline-extended-only-where-the-peer-was-heard: infunc("(*wsConn).nextMessage|(*wsConn).handleWsConn") [C03]
+//@ global-forbid at recv *: assert callbacks-run-under-locks-or-at-shutdown-never-wait: !infunc("(*wsConn).setupPings$5") [C15,C08,C03]
+//@ global-forbid at mapdel var:readers: assert a-rendezvous-entry-is-never-removed-while-a-peer-may-wait-on-it: false [C20]
+//@ global-forbid at call (*encoding/json.Decoder).UseNumber: assert arguments-decode-with-encoding-jsons-default-number-type: false [C01,C12]
+//@ global-forbid at call (*encoding/json.Decoder).DisallowUnknownFields: assert arguments-decode-with-encoding-jsons-default-strictness: false [C01,C12]
+//@ global-forbid at call (*lazyWriter).Write: assert only-the-reply-encoder-writes-to-the-connection-writer-so-no-empty-or-partial-message-is-flushed: false [C14,C09]
+//@ global-forbid at store net/http.Transport.ResponseHeaderTimeout: assert the-default-http-client-sets-no-deadline-of-its-own-on-calls: false [C06,C03]
+//@ global-forbid at store net/http.Client.Timeout: assert the-default-http-client-sets-no-deadline-of-its-own-on-calls: false [C06,C03]
+//@ global-forbid at call (*go.uber.org/zap.SugaredLogger).Errorw: assert the-raw-panic-payload-is-only-handed-to-the-formatter: !infunc("doCall$1") [C13]
+//@ global-forbid at call (*github.com/gorilla/websocket.Conn).CloseHandler: assert control-frames-are-not-written-through-handler-getters: false [C14,C15]
+//@ global-forbid at call (*github.com/gorilla/websocket.Conn).PingHandler: assert control-frames-are-not-written-through-handler-getters: false [C14,C15]
+//@ global-forbid at call (*github.com/gorilla/websocket.Conn).PongHandler: assert control-frames-are-not-written-through-handler-getters: false [C14,C15]
+//@ global-forbid at store github.com/gorilla/websocket.Dialer.Proxy: assert connections-are-dialled-with-the-default-dialer-and-its-handshake-timeout: false [C03,C05]
+//@ global-forbid at store github.com/gorilla/websocket.Dialer.ReadBufferSize: assert connections-are-dialled-with-the-default-dialer-and-its-handshake-timeout: false [C03,C05]
+//@ global-forbid at store github.com/gorilla/websocket.Dialer.WriteBufferSize: assert connections-are-dialled-with-the-default-dialer-and-its-handshake-timeout: false [C03,C05]
+//@ global-forbid at store github.com/gorilla/websocket.Dialer.HandshakeTimeout: assert connections-are-dialled-with-the-default-dialer-and-its-handshake-timeout: false [C03,C05]
+//@ global-forbid at store github.com/gorilla/websocket.Dialer.NetDial: assert connections-are-dialled-with-the-default-dialer-and-its-handshake-timeout: false [C03,C05]
+//@ global-forbid at store github.com/gorilla/websocket.Dialer.NetDialContext: assert connections-are-dialled-with-the-default-dialer-and-its-handshake-timeout: false [C03,C05]
+//@ global-forbid at call errors.Is: assert the-raw-panic-payloads-methods-run-only-under-fmts-own-guard: !infunc("doCall$1") [C13,C10]
+//@ global-forbid at call errors.As: assert the-raw-panic-payloads-methods-run-only-under-fmts-own-guard: !infunc("doCall$1") [C13,C10]
+//@ global-forbid at call errors.Unwrap: assert the-raw-panic-payloads-methods-run-only-under-fmts-own-guard: !infunc("doCall$1") [C13,C10]
+//@ global-forbid at lock wsConn.writeLk: assert the-server-releases-the-socket-without-queueing-behind-writers: !infunc("(*RPCServer).handleWS") [C15]
+//@ global at call (reflect.Value).Call: assert user-code-runs-only-under-the-panic-guard: infunc("doCall|auth.PermissionedProxy$1") [C13,C04]
+//@ global-forbid at call (*github.com/gorilla/websocket.Conn).WriteControl: assert control-frames-also-under-writeLk: heldclass("wsConn.writeLk") [C14,C15,C09]
+//@ global-forbid at call (*github.com/gorilla/websocket.Conn).SetWriteDeadline: assert no-sticky-write-deadline-shared-by-all-writers: false [C14,C09,C03,C15]
+//@ global-forbid at call sync/atomic.StoreUint64: assert channel-id-counter-only-grows: false [C07,C08]
+//@ global-forbid at call sync/atomic.StoreInt64: assert request-id-counter-only-grows: false [C02]
+//@ chaninv wsConn.readError: read-errors-are-errors: $val != nil [C03]
+//@ ghostmap failedCall(U) Bool
+//@ ghostmap regPair(U) Bool
+//@ specfn pairOf(U, Int) U
+//@ ghostmap closedSink(Int) Bool
+//@ ghostmap listlen(U) Int
+//@ ghostmap cancelledCall(U) Bool
+//@ -- every write-side call on the websocket must happen with the connection's write lock held (gorilla allows one concurrent writer)
+//@ global at call (*github.com/gorilla/websocket.Conn).WriteJSON: assert write-under-writeLk: heldclass("wsConn.writeLk") [C14]
+//@ global at call (*github.com/gorilla/websocket.Conn).WriteMessage: assert write-under-writeLk: heldclass("wsConn.writeLk") [C14]
+//@ global at call (*github.com/gorilla/websocket.Conn).NextWriter: assert write-under-writeLk: heldclass("wsConn.writeLk") [C14]
+
+//@ alias (reqestHandler).handle = (*handler).handle
+//@ -- function types: what every value of the type guarantees (each concrete function of that type is verified against it)
+//@ functype makeChanSink
+//@   ensures result1 != nil
+//@ -- ------------------------------------------------------------------ websocket.go
+//@ func normalizeID
+//@   modifies nothing
+//@   ensures idok: result1 == nil ==> idok(result0) [C10,C02,C09]
+//@   ensures err-or-id: result1 != nil ==> result0 == nil [C09]
+//@   ensures present-id-stays-present: id != nil && result1 == nil ==> result0 != nil [C02,C04]
+//@   ensures accepted-wire-ids-unchanged: (typeof(id) == #string || typeof(id) == #float64) ==> result1 == nil && result0 == id [C02,C09]
+//@   nopanic [C10]
+
+//@ func (*wsConn).nextWriter
+//@   requires cb != nil
+//@   at dyncall cb: assert writer-used-under-lock: heldclass("wsConn.writeLk") [C14]
+//@   at call (io.WriteCloser).Close: assert message-finished-under-lock: heldclass("wsConn.writeLk") [C14]
+//@   ensures callback-exactly-once: calls(cb) == 1 [C15,C14,C09]
+//@   ensures one-message-per-writer: calls(NextWriter) == 1 && calls(Close) <= 1 [C14]
+
+//@ func (*wsConn).sendRequest
+//@   ensures one-frame: calls(WriteJSON) == 1 [C14,C04]
+//@   ghost werr : U = nil
+//@   at ret WriteJSON: set werr = $result0
+//@   ensures write-failure-reported-to-the-caller: result == werr [C03,C02]
+
+//@ func (*wsConn).setupPings$4
+
+//@ func (*wsConn).setupPings
+
+//@ func (*wsConn).resetReadDeadline
+//@   ensures deadline-renewed-whenever-a-timeout-is-configured: c.timeout > 0 ==> calls(SetReadDeadline) == 1 [C03,C08]
+
+//@ func (*wsConn).handleWsConn
+//@   initphase
+//@   requires sane-backoff-config: 0 <= c.reconnectBackoff.minDelay && c.reconnectBackoff.minDelay <= c.reconnectBackoff.maxDelay [C05]
+//@   ghost linkDown : Bool = false
+//@   ghost branch : Int = 0
+//@   ghost reconnectFailed : Bool = false
+//@   ghost registered : Bool = false
+//@   at store wsConn.incomingErr: set linkDown = $val != nil
+//@   at recv ctx.Done(): set branch = 1
+//@   at recv c.stop: set branch = 2
+//@   at recv c.incoming: set branch = 3
+//@   at recv c.incoming: set reconnectFailed = false
+//@   at recv c.readError: set branch = 4
+//@   at recv c.readError: set reconnectFailed = false
+//@   at recv timeoutCh: set branch = 5
+//@   at recv c.requests: set branch = 6
+//@   at recv c.pongs: set branch = 7
+//@   at ret tryReconnect: set reconnectFailed = !$result0
+//@   at call tryReconnect: assert link-flagged-down-before-reconnect: linkDown || (defined(err) && err != nil) [C03]
+//@   ghost completed : Bool = false
+//@   at recv c.requests: set completed = false
+//@   at send req.ready: set completed = true
+//@   loop 1 invariant dequeued-request-never-dropped: branch == 6 ==> registered || completed [C03,C04,C02]
+//@   at recv c.requests: set registered = false
+//@   at mapset wsConn.inflight: set registered = true
+//@   at mapset wsConn.inflight: assert registers-this-request-under-its-id: $key == req.req.ID && $val == req && req.req.ID != nil [C02,C03]
+//@   at mapset wsConn.inflight: assert not-registered-on-a-dead-link: !hasErr && heldclass("wsConn.writeLk") [C03]
+//@   ghost flagSeen : Bool = false
+//@   at call (*sync.Mutex).Unlock: set flagSeen = (fieldof($0) == "wsConn.errLk" && c.incomingErr != nil) || (fieldof($0) != "wsConn.errLk" && flagSeen)
+//@   at mapset wsConn.inflight: assert the-fail-fast-test-is-the-link-flag-itself-whatever-the-fault: !flagSeen [C03,C05]
+//@   at call sendRequest: assert registered-before-written: req.req.ID != nil ==> registered [C02,C03]
+//@   at call sendRequest: assert sends-the-dequeued-request: $1 == req.req && calls(sendRequest) >= 0 [C02,C04]
+//@   at send req.ready: assert local-completion-shape: (req.req.ID != nil ==> $val.Error != nil && $val.Error.Code == -1111111 && $val.ID == req.req.ID && !registered && defined(hasErr) && hasErr) && (req.req.ID == nil ==> $val.ID == nil && $val.Result == nil && (($val.Error != nil) == (sendErr != nil))) [C03,C04]
+//@   ghost sendErr : U = nil
+//@   at ret sendRequest: set sendErr = $result0
+//@   ensures keepalive-stopped-when-the-loop-ends: calls(stopPings) >= 1 [C15]
+//@   at call (*wsConn).resetReadDeadline: assert deadline-extended-only-by-a-pong: action == "pong" [C03]
+//@   at recv timeoutTimer.C: assert the-inactivity-timer-is-drained-without-waiting: !$blocking [C05,C03]
+//@   loop 1 invariant reader-channel: c.incoming != nil && chancap(c.incoming) == 0 [C03,C10]
+//@   ensures exits-only-for-a-cause: branch == 1 || branch == 2 || ((branch == 3 || branch == 4) && reconnectFailed) || (branch == 3 && err == nil) || (branch == 5 && c.connFactory == nil) [C03,C05]
+//@   at store wsConn.readError: assert read-failure-report-never-blocks-a-dead-loop: chancap($val) >= 1 [C15,C03]
+//@   at store wsConn.incoming: assert reader-channel-unbuffered: chancap($val) == 0 && $val != nil && !closed($val) [C03,C10]
+//@   at call context.WithCancel: assert connection-context-derives-from-caller: $0 == ctx [C15]
+//@   at ret context.WithCancel: let cctx = $result0
+//@   at go frameExecutor: assert executor-runs-under-connection-context: $1 == cctx [C15]
+//@   at go readFrame: assert reader-runs-under-connection-context: $1 == cctx [C15]
+//@   at call tryReconnect: assert reconnect-bound-to-connection-context: $1 == cctx [C15,C18]
+//@   at makechan: assert no-unbuffered-error-channel: true [C15]
+//@   ensures exit-fails-calls-and-closes-channels: calls(closeInFlight) >= 1 && calls(closeChans) >= 1 && calls(cancel) >= 1 [C03,C08,C15]
+
+//@ func (*wsConn).tryReconnect
+//@   requires sane-backoff-config: 0 <= c.reconnectBackoff.minDelay && c.reconnectBackoff.minDelay <= c.reconnectBackoff.maxDelay [C05]
+//@   modifies wsConn.incoming, wsConn.inflight, wsConn.handling, wsConn.chanHandlers
+//@   ensures nothing-resent: calls(sendRequest) == 0 [C04]
+//@   ensures no-factory-no-redial: c.connFactory == nil ==> !result && calls(closeInFlight) == 0 && calls(closeChans) == 0 && !spawned() [C05,C03]
+//@   ensures redial-fails-calls-first: c.connFactory != nil ==> result && calls(closeInFlight) == 1 && calls(closeChans) == 1 && spawned() [C03,C08,C05]
+//@   at go tryReconnect$1: assert tables-wiped-before-redial: calls(closeInFlight) == 1 && calls(closeChans) == 1 [C03,C08]
+//@   at store wsConn.incoming: assert fresh-unbuffered-channel: !closed($val) && $val != nil && chancap($val) == 0 [C03,C10]
+//@   ensures reader-channel-fresh: result ==> c.incoming != nil && chancap(c.incoming) == 0 && !closed(c.incoming) [C03,C10]
+
+//@ func (*wsConn).tryReconnect$1
+//@   requires sane-backoff: 0 <= c.reconnectBackoff.minDelay && c.reconnectBackoff.minDelay <= c.reconnectBackoff.maxDelay && c.connFactory != nil [C05]
+//@   requires fresh-reader-channel: c.incoming != nil && !closed(c.incoming) [C03,C10]
+//@   ghost slept : Bool = false
+//@   ghost sleptFor : Int = 0
+//@   ghost lastNext : Int = -1
+//@   at ret next: set lastNext = $result0
+//@   at call next: assert backoff-from-attempt-count: $1 == attempts && $1 >= 0 [C05]
+//@   at call time.Sleep: assert sleeps-for-the-backoff-delay: $0 == lastNext && $0 >= c.reconnectBackoff.minDelay [C05]
+//@   at call time.Sleep: set slept = true
+//@   at call dyn:c.connFactory: assert every-dial-preceded-by-backoff-sleep: slept [C05]
+//@   at ret dyn:c.connFactory: set slept = false
+//@   at ret dyn:c.connFactory: assume $result1 == nil ==> $result0 != nil
+//@   loop 1 invariant attempts-count: attempts >= 0 && !slept [C05]
+//@   at store wsConn.incomingErr: assert flag-cleared-only-with-new-connection: $val == nil && conn != nil && heldclass("wsConn.writeLk") && heldclass("wsConn.errLk") [C03,C05]
+//@   at store wsConn.conn: assert swaps-in-the-dialled-connection: $val == conn && conn != nil [C05,C14]
+//@   ensures nothing-resent: calls(sendRequest) == 0 [C04]
+//@   ghost ctxErr : U = nil
+//@   ghost ctxDone : Bool = false
+//@   at ret (context.Context).Err: set ctxErr = $result0
+//@   at recv ctx.Done(): set ctxDone = true
+//@   ensures gives-up-only-when-the-client-context-is-done: calls(nextMessage) == 0 && spawnedCount(nextMessage) == 0 ==> ctxErr != nil || ctxDone [C05,C03]
+//@   at go nextMessage: assert reader-restarted-after-swap: calls(setupPings) == 1 && nolocks() [C05,C03]
+
+//@ func (*wsConn).handleOutChans
+//@   safety
+//@   ghost pendingAnnounce : Bool = false
+//@   loop 1 invariant parallel-tables: internal == 2 && len(cases) == internal + len(caseToID) && !pendingAnnounce [C07,C08]
+//@   loop 1 invariant ids-paired-with-their-channels: forall j :: internal <= j && j < len(cases) ==> regPair(pairOf(cases[j].Chan, caseToID[j - internal])) [C07,C08]
+//@   at ret (reflect.Value).Interface: assume istype($result0, #outChanReg)
+//@   at call reflect.Select: assert selects-over-all-registered-channels: $0 == cases [C07]
+//@   at ret reflect.Select: let selCh = cases[$result0].Chan
+//@   at call (reflect.Value).Interface: set pendingAnnounce = true
+//@   at call nextWriter: assert channel-announced-in-the-iteration-it-joins: pendingAnnounce && cases[len(cases) - 1].Chan == registration.ch && caseToID[len(caseToID) - 1] == registration.chID && cases[len(cases) - 1].Dir == 2 [C07]
+//@   at call nextWriter: update regPair(pairOf(registration.ch, registration.chID)) := true
+//@   at call nextWriter: set pendingAnnounce = false
+//@   at call reflect.ValueOf: assert value-and-close-tagged-with-own-channel-id: (calls(Select) >= 1 && istype($0, #uint64)) ==> regPair(pairOf(selCh, unbox($0, #uint64))) [C07,C08]
+//@   at call sendRequest: assert forwarded-as-notification: $1.ID == nil && $1.Params == rp && $1.Method == ite(ok, "xrpc.ch.val", "xrpc.ch.close") [C07,C08]
+//@   at call encoding/json.Marshal: assert forwards-the-received-value: true [C07]
+//@   ghost sendFailed : Bool = false
+//@   at ret reflect.Select: set sendFailed = false
+//@   at ret sendRequest: set sendFailed = $result0 != nil && ok
+//@   ensures forwarder-stops-only-when-connection-ends-or-a-value-write-fails: ((chosen == 0 || chosen == 1) && !ok) || sendFailed [C07,C08,C15]
+
+//@ func (*wsConn).closeInFlight
+//@   at lock wsConn.inflightLk: let tbl = c.inflight
+//@   at lock wsConn.handlingLk: let htbl = c.handling
+//@   at send req.ready: assert fails-with-temporary-error: $val.Error != nil && $val.Error.Code == -1111111 && $val.ID == id && $val.Result == nil && $chan == tbl[id].ready && present(tbl, id) [C03,C04]
+//@   at send req.ready: update failedCall($val.ID) := true
+//@   loop 1 invariant every-visited-call-failed: c.inflight == tbl && (forall k: U :: visited(1, k) ==> failedCall(k)) [C03]
+//@   at store wsConn.inflight: assert all-in-flight-calls-failed-before-reset: forall k: U :: present(tbl, k) ==> failedCall(k) [C03,C05]
+//@   at store wsConn.inflight: assert table-reset-to-empty: forall k: U :: !present($val, k) [C03,C05]
+//@   at rangenext wsConn.handling: let hk = $key
+//@   at dyncall cancel: assert cancels-registered-handler: $callee == htbl[hk] && present(htbl, hk) [C15,C06]
+//@   at dyncall cancel: update cancelledCall(hk) := true
+//@   loop 2 invariant every-visited-handler-cancelled: c.handling == htbl && (forall k: U :: visited(2, k) ==> cancelledCall(k)) [C15]
+//@   at store wsConn.handling: assert all-handlers-cancelled-before-reset: forall k: U :: present(htbl, k) ==> cancelledCall(k) [C15]
+//@   ensures nothing-resent: calls(sendRequest) == 0 [C04]
+
+//@ func (*wsConn).closeChans
+//@   ghost deletions : Int = 0
+//@   at rangenext wsConn.chanHandlers: set deletions = 0
+//@   at mapdel wsConn.chanHandlers: assert removes-the-sink-being-closed: $key == chid && heldclass("chanHandler.lk") [C08]
+//@   at mapdel wsConn.chanHandlers: inc deletions
+//@   at dyncall hnd.cb: assert each-sink-closed-once-after-removal: !$1 && deletions == 1 && $callee == hnd.cb && heldclass("chanHandler.lk") && !heldclass("wsConn.chanHandlersLk") [C08]
+//@   at dyncall hnd.cb: update closedSink(chid) := true
+//@   loop 1 invariant every-visited-sink-closed: forall k :: visited(1, k) ==> closedSink(k) [C08]
+//@   ensures nothing-resent: calls(sendRequest) == 0 [C04]
+//@   loop 1 invariant sinks-ok-while-held: sinksOK(c) [C10,C14,C08]
+
+//@ func (*wsConn).handleCtxAsync
+//@   at call reflect.ValueOf: assert cancel-names-the-subscribing-call: $0 == id [C06]
+//@   at call sendRequest: assert cancel-message-shape: $1.Method == "xrpc.cancel" && $1.ID == nil && $1.Params == rp && calls(Done) == 1 [C06]
+//@   ensures at-most-one-cancel: calls(sendRequest) <= 1 [C06]
+//@   ghost merr : U = nil
+//@   at ret encoding/json.Marshal: set merr = $result1
+//@   ensures cancel-sent-once-the-context-ends: merr == nil ==> calls(sendRequest) == 1 [C06]
+
+//@ func (*wsConn).handleCall$3
+//@   at dyncall cancel: assert released-only-when-not-kept: !keepctx [C06]
+//@   at mapdel wsConn.handling: assert forgets-only-own-entry: $key == frame.ID && !keepctx [C06]
+//@   ensures released-when-not-kept: !keepctx ==> calls(cancel) == 1 [C06,C15]
+
+//@ func (*wsConn).handleCall$2
+//@   at dyncall cancel: assert released-only-when-not-kept: !keepCtx [C06]
+//@   ensures released-when-not-kept: !keepCtx ==> calls(cancel) == 1 [C06,C15]
+
+//@ func (*lazyWriter).Write
+//@   at call (io.Writer).Write: assert hands-the-callers-bytes-to-the-connection-writer: $1 == p [C14,C09]
+//@   ensures every-write-reaches-the-connection-writer: calls(Write) == 1 [C14,C09,C15]
+
+//@ func (*lazyWriter).Write$1$1
+
+//@ func (*wsConn).cancelCtx
+//@   modifies nothing
+//@   nopanic [C10]
+//@   ghost nid : U = nil
+//@   at ret normalizeID: set nid = $result0
+//@   at call encoding/json.Unmarshal: assert decodes-first-param: calls(Unmarshal) == 1 ==> $0 == params[0].data [C06]
+//@   at call normalizeID: assert normalises-the-decoded-id: $0 == id [C06,C10]
+//@   at maplookup wsConn.handling: assert looks-up-the-named-call: $key == nid [C06]
+//@   at maplookup wsConn.handling: let centry = $val
+//@   at dyncall cf: assert cancels-only-the-named-call: $callee == centry && calls(cf) == 0 [C06]
+
+//@ func (*wsConn).handleChanMessage
+//@   nopanic [C10]
+//@   at maplookup wsConn.chanHandlers: assert dispatches-by-the-frames-channel-id: $key == chid [C07]
+//@   at maplookup wsConn.chanHandlers: let sink = $val
+//@   at maplookup wsConn.chanHandlers: let found = $ok
+//@   at call encoding/json.Unmarshal: assert channel-id-is-first-param: calls(Unmarshal) == 1 ==> $0 == params[0].data [C07]
+//@   at unlock wsConn.chanHandlersLk: assert sink-locked-before-table-released: found ==> heldclass("chanHandler.lk") [C07,C08]
+//@   at dyncall hnd.cb: assert value-goes-to-that-subscriptions-sink-only: $callee == sink.cb && $0 == params[1].data && $1 && heldclass("chanHandler.lk") && !heldclass("wsConn.chanHandlersLk") [C07,C08]
+//@   ensures at-most-one-delivery: calls(cb) <= 1 [C07]
+
+//@ func (*wsConn).handleChanClose
+//@   nopanic [C10]
+//@   ghost deletions : Int = 0
+//@   at maplookup wsConn.chanHandlers: assert looks-up-the-closed-channel: $key == chid [C08]
+//@   at maplookup wsConn.chanHandlers: let sink = $val
+//@   at mapdel wsConn.chanHandlers: assert removes-exactly-the-closed-subscription: $key == chid && heldclass("chanHandler.lk") [C08]
+//@   at mapdel wsConn.chanHandlers: inc deletions
+//@   at dyncall hnd.cb: assert close-callback-once-after-removal: $callee == sink.cb && !$1 && deletions == 1 && heldclass("chanHandler.lk") && !heldclass("wsConn.chanHandlersLk") [C08]
+//@   ensures at-most-one-close: calls(cb) <= 1 [C08]
+
+//@ func (*wsConn).handleResponse
+//@   requires idok(frame.ID)
+//@   nopanic [C10]
+//@   ghost deliveries : Int = 0
+//@   at maplookup wsConn.inflight: assert looks-up-the-response-id: $key == frame.ID [C02]
+//@   at maplookup wsConn.inflight: let entry = $val
+//@   at maplookup wsConn.inflight: let found = $ok
+//@   at send req.ready: assert delivers-to-that-entrys-mailbox: found && $chan == entry.ready [C02]
+//@   at send req.ready: assert delivers-the-frame-unchanged: $val.ID == frame.ID && $val.Result == frame.Result && $val.Error == frame.Error && $val.Jsonrpc == frame.Jsonrpc [C02,C01,C11]
+//@   at send req.ready: inc deliveries
+//@   ghost deletions : Int = 0
+//@   at mapdel wsConn.inflight: assert removes-exactly-the-answered-call: $key == frame.ID && deliveries == 1 [C02,C03]
+//@   at mapdel wsConn.inflight: inc deletions
+//@   at mapset wsConn.chanHandlers: assert sink-registered-before-call-completes: deliveries == 0 && $val != nil && $val.cb != nil [C07,C08]
+//@   at go handleCtxAsync: assert cancel-watcher-carries-request-id: $2 == frame.ID && calls(retCh) == 1 [C06]
+//@   ensures at-most-one-delivery: deliveries <= 1 && (deliveries == 1) == (deletions == 1) [C02,C03]
+
+//@ func (*wsConn).handleCall
+//@   requires idok(frame.ID)
+//@   nopanic [C10]
+//@   at go handle: assert writer-iff-id: (frame.ID != nil) == isfn($3, "(*wsConn).nextWriter") && (frame.ID == nil) == isfn($3, "(*wsConn).handleCall$1") [C09,C04]
+//@   at call context.WithCancel: assert handler-context-derives-from-connection: $0 == ctx [C06,C15]
+//@   at ret context.WithCancel: let hctx = $result0
+//@   at ret context.WithCancel: let hcancel = $result1
+//@   at mapset wsConn.handling: assert registers-own-cancel-under-own-id: $key == frame.ID && $val == hcancel [C06]
+//@   at go handle: assert handler-runs-with-derived-context: $1 == hctx && calls(WithCancel) == 1 [C06,C15]
+//@   at go handle: assert done-matches-id: (frame.ID != nil) == isfn($5, "(*wsConn).handleCall$3") && (frame.ID == nil) == isfn($5, "(*wsConn).handleCall$2") [C06]
+//@   ensures one-handler-goroutine-per-call: c.handler != nil ==> spawnedCount(handle) == 1 [C04,C16]
+//@   at go handle: assert context-registered-before-start: frame.ID != nil ==> calls(Lock) == 1 && calls(Unlock) == 1 [C06]
+//@   at go handle: assert request-copied-from-frame: $2.ID == frame.ID && $2.Method == frame.Method && $2.Params == frame.Params && $2.Jsonrpc == frame.Jsonrpc [C09,C01,C02]
+
+//@ func (*wsConn).handleOutChans$1
+//@   requires w != nil
+//@   at call (*encoding/json.Encoder).Encode: assert channel-reply-shape: resp.Jsonrpc == "2.0" && resp.ID == registration.reqID && resp.Error == nil && resp.Result == box(registration.chID) [C09,C07]
+//@   ensures one-value: calls(Encode) == 1 [C09]
+
+//@ func (*wsConn).handleFrame
+//@   requires idok(frame.ID)
+//@   nopanic [C10]
+//@   at call handleCall: assert call-inherits-connection-context: $1 == ctx [C15,C06]
+//@   ensures exactly-one-dispatch: calls(handleResponse) + calls(cancelCtx) + calls(handleChanMessage) + calls(handleChanClose) + calls(handleCall) == 1 [C04,C02]
+//@   ensures dispatch-by-method: (frame.Method == "" ==> calls(handleResponse) == 1) && (frame.Method == "xrpc.cancel" ==> calls(cancelCtx) == 1) && (frame.Method == "xrpc.ch.val" ==> calls(handleChanMessage) == 1) && (frame.Method == "xrpc.ch.close" ==> calls(handleChanClose) == 1) [C04,C02,C06,C07]
+
+//@ func (*wsConn).frameExecutor
+//@   requires ctx != nil
+//@   nopanic [C10]
+//@   ghost handled : Int = 0
+//@   at recv c.frameExecQueue: set handled = 0
+//@   at recv c.frameExecQueue: let buf0 = $val
+//@   at call encoding/json.Unmarshal: assert decodes-the-dequeued-frame: $0 == buf0 [C02,C04]
+//@   at call encoding/json.Unmarshal: assert decodes-into-a-zeroed-frame: frame.ID == nil && frame.Method == "" && len(frame.Params) == 0 && len(frame.Result) == 0 && cap(frame.Result) == 0 && cap(frame.Params) == 0 && frame.Error == nil && frame.Meta == nil [C04,C02,C09]
+//@   at call handleFrame: assert each-frame-dispatched-at-most-once: handled == 0 && idok($2.ID) [C02,C04,C10]
+//@   ghost uerr : U = nil
+//@   ghost nerr : U = nil
+//@   at ret encoding/json.Unmarshal: set uerr = $result0
+//@   at ret normalizeID: set nerr = $result1
+//@   at call handleFrame: assert only-wellformed-frames-dispatched: uerr == nil && nerr == nil && calls(Unmarshal) >= 1 && calls(normalizeID) >= 1 [C10,C12,C04]
+//@   at call handleFrame: assert handlers-inherit-connection-context: $1 == ctx [C15,C06]
+//@   at recv ctx.Done(): assert stops-with-connection-context: true [C15]
+//@   at call handleFrame: inc handled
+
+//@ func (*wsConn).readFrame
+//@   requires reader-owns-open-channel: c.incoming != nil && !closed(c.incoming) [C10,C03,C08]
+//@   ghost reportedErr : Bool = false
+//@   at send c.readError: set reportedErr = true
+//@   at send c.frameExecQueue: assert enqueues-the-frame-just-read: $val == buf && !reportedErr [C02,C15]
+//@   ensures reader-restarted-unless-read-failed: reportedErr || spawnedCount(nextMessage) == 1 [C15,C03]
+//@   ensures one-outcome: reportedErr != (calls(nextMessage) >= 0 && spawnedCount(nextMessage) == 1) [C15]
+//@   nopanic [C10]
+
+//@ func (*wsConn).nextMessage
+//@   requires reader-owns-open-channel: c.incoming != nil && !closed(c.incoming) [C10,C03,C08]
+//@   at call (*github.com/gorilla/websocket.Conn).NextReader: assert read-deadline-armed-before-every-read: calls(resetReadDeadline) == 1 [C03]
+//@   at store wsConn.incomingErr: assert failure-flags-link-before-closing: $val != nil && !closed(c.incoming) [C03]
+//@   ghost flagged : Bool = false
+//@   at store wsConn.incomingErr: set flagged = true
+//@   at close c.incoming: assert closes-only-after-recording-the-cause: flagged [C03,C05]
+//@   ensures every-failure-closes-the-channel: (flagged ==> closed(c.incoming)) && (!flagged ==> !closed(c.incoming)) [C03,C05]
+//@   ensures failed-read-flags-and-closes-once: calls(NextReader) == 1 [C03]
+//@   nopanic [C10]
+
+//@ func (*client).makeOutChan$1$2
+//@   requires sink-owns-open-channel: incoming != nil && !closed(incoming) [C10,C08]
+//@   requires valid-result-index: 0 <= valOut && valOut < NumOut(ftyp) [C10]
+//@   at close incoming: assert closes-only-at-end-of-stream: !ok [C08]
+//@   at recv *: assert end-of-stream-never-waits: ok [C15,C08] -- closeChans runs this callback under chanHandlersLk at shutdown
+//@   at send incoming: assert forwards-the-decoded-value-while-live: ok && $val == val && calls(Unmarshal) == 1 && calls(Err) == 1 [C07,C08]
+//@   ensures end-of-stream-closes-the-buffer-input: !ok ==> closed(incoming) && calls(Unmarshal) == 0 [C08]
+//@   nopanic [C10]
+
+//@ -- ------------------------------------------------------------------ handler.go / server.go
+//@ func (*handler).handleReader
+//@   requires handler-tables-wellformed: rpcError != nil && handlersOK(s) [C10,C09,C01,C12]
+//@   ghost sizeRejected : Bool = false
+//@   at ret ReadFrom: let nread = $result0
+//@   at ret ReadFrom: let readErr = $result1
+//@   at call xerrors.Errorf: set sizeRejected = sizeRejected || $0 == "request bigger than maximum %d allowed"
+//@   at call handle: assert no-handler-when-oversize: nread <= s.maxRequestSize [C10]
+//@   loop 1 invariant not-size-rejected: !sizeRejected [C10]
+//@   ensures reject-exactly-above-limit: readErr == nil ==> (sizeRejected == (nread > s.maxRequestSize)) [C10]
+//@   ensures oversize-never-handled: sizeRejected ==> calls(handle) == 0 && calls(rpcError) == 1 [C10]
+//@   ghost ost : Int = 0
+//@   ghost rpcCode : Int = 0
+//@   at call (io.Writer).Write: assert value-token-nonempty: tokOf($1) == 0 ==> len($1) > 0 [C09]
+//@   at call (io.Writer).Write: set ost = step(ost, tokOf($1))
+//@   at ret dyn:rpcError: set ost = ite(isfn($0, "(*handler).handleReader$1"), ite(ost == 0, 1, 9), ost)
+//@   at ret handle: set ost = ite(isfn($3, "(*handler).handleReader$1"), ite(ost == 0, ite(nondetBool(), 1, 0), 9), ost)
+//@   at call dyn:rpcError: set rpcCode = $2
+//@   at call dyn:rpcError: assert protocol-error-code: $2 == -32700 || $2 == -32600 [C09]
+//@   ghost lastMsg : U = nil
+//@   at call xerrors.New: set lastMsg = $0
+//@   at call xerrors.Errorf: set lastMsg = $0
+//@   at call dyn:rpcError: assert codes-match-causes: (lastMsg == "Invalid request" ==> $2 == -32600) && (lastMsg == "Parse error" ==> $2 == -32700) && ($2 == -32600 ==> trimmedLen == 0 || (defined(reqs) && len(reqs) == 0)) [C09]
+//@   ghost trimmedLen : Int = -1
+//@   at ret bytes.TrimSpace: set trimmedLen = len($result0)
+//@   at call handle: assert id-normalised-before-dispatch: idok($2.ID) [C09,C02]
+//@   at call handle: assert handler-gets-the-request-context: $1 == ctx [C06]
+//@   at call handle: assert batch-elements-buffered: (ost == 0) == isfn($3, "(*handler).handleReader$1") [C09]
+//@   loop 1 invariant array-open: (ost == 2 || ost == 3) && wroteElem == (ost == 3) [C09]
+//@   loop 1 invariant every-element-dispatched-or-rejected: calls(rpcError) + calls(handle) == rangeindex + 1 [C09]
+//@   ensures wellformed-output: ost == 0 || ost == 1 || ost == 5 [C09]
+//@   ensures every-body-is-answered-or-dispatched: calls(rpcError) + calls(handle) >= 1 [C09,C10]
+//@   at call io.LimitReader: assert reads-exactly-one-byte-beyond-the-limit: $1 == s.maxRequestSize + 1 && $0 == r [C10]
+//@   at call (*bytes.Buffer).ReadFrom: assert whole-body-buffered-before-anything-else: calls(rpcError) == 0 && calls(handle) == 0 [C10]
+//@   nopanic [C10]
+
+//@ func (*handler).handle
+//@   modifies nothing
+//@   requires rpcError != nil && w != nil && done != nil && handlersOK(s)
+//@   loop 1 invariant param-index: i >= 0 [C10,C01,C12]
+//@   loop 1 invariant params-decoded-positionally: len(callParams) == 1 + handler.hasCtx + handler.nParams && callParams[0] == handler.receiver && (forall k :: 0 <= k && k < i ==> (!present(s.paramDecoders, handler.paramReceivers[k]) ==> callParams[k + 1 + handler.hasCtx] == valueOf(ifaceOf(elemOf(newOf(handler.paramReceivers[k])))))) [C01,C12]
+//@   at call bytes.NewReader: assert decodes-the-ith-positional-param: $0 == ps[i].data [C01,C12]
+//@   at call reflect.New: assert decodes-into-the-declared-parameter-type: $0 == handler.paramReceivers[i] [C01,C12]
+//@   at call (*encoding/json.Decoder).Decode: assert decodes-into-the-fresh-value: $1 == ifaceOf(newOf(handler.paramReceivers[i])) [C01,C12]
+//@   at call doCall: assert call-arguments-positional: len($2) == 1 + handler.hasCtx + handler.nParams && $2[0] == handler.receiver && $2 == callParams [C01]
+//@   at call reflect.ValueOf: assert raw-params-passed-verbatim: boxedas($0, #RawParams) ==> handler.hasRawParams && unbox($0, #RawParams) == old(req.Params) [C01]
+//@   at call withLazyWriter: assert result-is-the-handlers-value-output: resp.Error == nil && handler.valOut != -1 ==> resp.Result == ifaceOf(callResult[handler.valOut]) [C01,C11]
+//@   ghost callErr : U = nil
+//@   at ret doCall: set callErr = $result1
+//@   ensures done-always-runs: calls(done) >= 1 [C13,C06,C15]
+//@   ghost lastKeep : Bool = false
+//@   at dyncall done: set lastKeep = $0
+//@   ensures streams-keep-their-context: defined(outCh) ==> lastKeep == outCh [C06,C15]
+//@   ensures a-stream-is-any-channel-result: defined(outCh) ==> outCh == (handler.valOut != -1 && KindOf(OutT(rtypeOf(handler.handlerFunc), handler.valOut)) == 18) [C06,C15,C07]
+//@   ensures unresolved-calls-release-context: !resolvable(s, old(req.Method)) ==> !lastKeep [C06]
+//@   ghost released : Bool = false
+//@   at dyncall done: set released = released || !$0
+//@   ensures arity-rejected-calls-release-context: rpcCode == -32602 ==> released [C06,C15]
+//@   ghost rpcCode : Int = 0
+//@   ghost chanDeferred : Bool = false
+//@   at call dyn:rpcError: set rpcCode = $2
+//@   at ret dyn:chOut: set chanDeferred = $result0 == nil
+//@   at call dyn:rpcError: assert error-reply-names-request: $1 != nil && $1.ID == old(req.ID) && $0 == w [C09,C02]
+//@   at call withLazyWriter: assert reply-echoes-id-and-version: resp.ID == old(req.ID) && resp.Jsonrpc == "2.0" && $0 == w [C09,C02]
+//@   at call withLazyWriter: assert reply-only-for-id-bearing: old(req.ID) != nil [C09,C04]
+//@   at call withLazyWriter: assert error-reply-carries-no-result: resp.Error != nil ==> resp.Result == nil [C11,C09]
+//@   at store JSONRPCError.Code: assert internal-failures-use-the-generic-code: $val == 1 [C11]
+//@   at call createError: assert error-built-from-the-handlers-error-output: calls(doCall) == 1 && handler.errOut != -1 [C11]
+//@   at call doCall: assert dispatches-selected-handler: $1 == selected(s, old(req.Method)).handlerFunc && $0 == old(req.Method) && resolvable(s, old(req.Method)) [C12,C01,C16]
+//@   at call doCall: assert arity-checked-before-call: handler.hasRawParams || (defined(ps) && len(ps) == handler.nParams) [C12,C09]
+//@   ghost paramsDecoded : Bool = false
+//@   at call encoding/json.Unmarshal: assert decodes-the-requests-params: $0 == old(req.Params) [C12,C01]
+//@   at ret encoding/json.Unmarshal: set paramsDecoded = true
+//@   at call doCall: assert counted-params-are-the-requests-params: handler.hasRawParams || len(old(req.Params)) == 0 || paramsDecoded [C12,C09,C01]
+//@   at call doCall: assert nothing-rejected-before-call: calls(rpcError) == 0 && calls(doCall) == 0 [C12,C04,C09]
+//@   ensures at-most-one-reply: calls(rpcError) + calls(withLazyWriter) <= 1 [C09,C02]
+//@   ensures id-bearing-gets-exactly-one-reply: old(req.ID) != nil && !chanDeferred ==> calls(rpcError) + calls(withLazyWriter) == 1 [C09,C02]
+//@   ensures channel-reply-left-to-forwarder: chanDeferred ==> calls(rpcError) + calls(withLazyWriter) == 0 [C09,C07]
+//@   ensures unknown-method-is-32601-and-not-run: !resolvable(s, old(req.Method)) ==> rpcCode == -32601 && calls(rpcError) == 1 && calls(doCall) == 0 [C09,C12]
+//@   ensures protocol-errors-never-run-handler: (rpcCode == -32601 || rpcCode == -32602 || rpcCode == -32700) ==> calls(doCall) == 0 [C09,C12]
+//@   ghost lastMsg : U = nil
+//@   at call fmt.Errorf: set lastMsg = $0
+//@   at call xerrors.Errorf: set lastMsg = $0
+//@   at call dyn:rpcError: assert codes-match-causes: (lastMsg == "wrong param count (method '%s'): %d != %d" ==> $2 == -32602) && (lastMsg == "method '%s' not found" ==> $2 == -32601) && ($2 == -32602 ==> len(ps) != handler.nParams) && ($2 == -32601 ==> !resolvable(s, old(req.Method)) || chOut == nil) && ($2 == 0 ==> callErr != nil) [C09,C12]
+//@   loop 1 invariant arity-checked-before-decoding: len(ps) == handler.nParams [C09,C12]
+//@   loop 1 invariant nothing-replied-or-run-yet: rpcCode == 0 && calls(rpcError) == 0 && calls(doCall) == 0 && calls(withLazyWriter) == 0 && callErr == nil && !chanDeferred && (len(old(req.Params)) == 0 || paramsDecoded) [C09,C12,C13,C04]
+//@   ensures panic-gets-one-error-reply: callErr != nil ==> calls(rpcError) == 1 && calls(withLazyWriter) == 0 [C13,C09]
+//@   nopanic [C10]
+
+//@ func rpcError
+//@   modifies nothing
+//@   requires wf != nil
+//@   nopanic [C10]
+//@   ensures one-callback: calls(wf) == 1 [C09]
+
+//@ func rpcError$1
+//@   safety
+//@   requires w != nil
+//@   at call (*encoding/json.Encoder).Encode: assert error-object-shape: resp.Jsonrpc == "2.0" && resp.ID == req.ID && resp.Error != nil && resp.Error.Code == code && resp.Result == nil && resp.Error.Data == nil && len(resp.Error.Meta) == 0 [C09,C13]
+//@   ensures one-value: calls(Encode) == 1 [C09]
+
+//@ func (*handler).handle$1
+//@   safety
+//@   requires w != nil
+//@   ensures one-value: calls(Encode) == 1 [C09]
+
+//@ func withLazyWriter
+//@   safety
+//@   modifies nothing
+//@   requires cb != nil
+//@   ensures one-callback: calls(cb) == 1 [C09,C14]
+
+//@ func (*handler).createError
+//@   modifies nothing
+//@   requires err != nil
+//@   ensures result != nil [C11,C10]
+//@   nopanic [C10]
+//@   ghost msg : U = nil
+//@   ghost dynT : U = nil
+//@   ghost convErr : U = nil
+//@   ghost convTried : Bool = false
+//@   ghost marshalErr : U = nil
+//@   ghost marshalTried : Bool = false
+//@   at ret (error).Error: set msg = $result0
+//@   at call (error).Error: assert message-from-the-handlers-error: $0 == old(err) [C11]
+//@   at ret reflect.TypeOf: set dynT = $result0
+//@   at call reflect.TypeOf: assert code-looked-up-by-dynamic-type: $0 == old(err) [C11]
+//@   at maplookup Errors.byType: assert code-looked-up-by-dynamic-type: $key == dynT [C11]
+//@   at ret (RPCErrorCodec).ToJSONRPCError: set convErr = $result1
+//@   at ret (RPCErrorCodec).ToJSONRPCError: set convTried = true
+//@   at ret (RPCErrorCodec).ToJSONRPCError: let conv = $result0
+//@   at ret (marshalable).MarshalJSON: set marshalErr = $result1
+//@   at ret (marshalable).MarshalJSON: set marshalTried = true
+//@   at ret (marshalable).MarshalJSON: let meta = $result0
+//@   at call (marshalable).MarshalJSON: assert codec-errors-never-take-the-generic-path: !istype(old(err), #RPCErrorCodec) [C11]
+//@   ensures codec-consulted-for-codec-errors: istype(old(err), #RPCErrorCodec) ==> convTried [C11]
+//@   ensures codec-output-used-when-conversion-succeeds: convTried && convErr == nil ==> result.Code == conv.Code && result.Message == conv.Message && result.Data == conv.Data && result.Meta == conv.Meta [C11]
+//@   ensures generic-error-keeps-code-and-message: !(convTried && convErr == nil) ==> result.Message == msg && result.Code == ite(s.errors != nil && present(s.errors.byType, dynT), s.errors.byType[dynT], 1) && result.Data == nil [C11]
+//@   ensures marshalled-meta-attached: marshalTried && marshalErr == nil ==> result.Meta == meta [C11]
+//@   ensures no-meta-otherwise: !convTried && !(marshalTried && marshalErr == nil) ==> len(result.Meta) == 0 [C11]
+
+//@ func (*handler).getSpan
+//@   modifies nothing
+//@   nopanic [C10]
+
+//@ func (response).MarshalJSON
+//@   modifies nothing
+//@   nopanic [C10]
+//@   at call encoding/json.Marshal: assert result-xor-error: present(data, "jsonrpc") && present(data, "id") && present(data, "error") != present(data, "result") && present(data, "error") == (r.Error != nil) [C09,C11]
+//@   at call encoding/json.Marshal: assert members-are-the-fields: data["jsonrpc"] == box(r.Jsonrpc) && data["id"] == r.ID && (r.Error == nil ==> data["result"] == r.Result) && unbox($0, #map[string]interface{}) == data [C09,C01]
+//@   ensures one-marshal: calls(Marshal) == 1 [C09]
+
+//@ func (*JSONRPCError).val
+//@   modifies nothing
+//@   nopanic [C10]
+//@   ghost failed : Bool = false
+//@   ghost built : U = nil
+//@   at maplookup Errors.byCode: assert registered-type-looked-up-by-code: $key == e.Code [C11,C05]
+//@   at maplookup Errors.byCode: let rtype = $val
+//@   at call reflect.New: assert builds-a-value-of-the-registered-type: $0 == ite(KindOf(rtype) == 22, ElemT(rtype), rtype) [C11]
+//@   at ret reflect.New: set built = $result0
+//@   at call (reflect.Type).Implements: assert capability-checked-on-the-built-values-type: $0 == rtypeOf(built) [C11]
+//@   at ret (RPCErrorCodec).FromJSONRPCError: set failed = failed || $result0 != nil
+//@   at call (marshalable).UnmarshalJSON: assert meta-handed-to-the-registered-type: $1 == e.Meta && len(e.Meta) > 0 [C11]
+//@   at ret (marshalable).UnmarshalJSON: set failed = failed || $result0 != nil
+//@   ensures failed-conversion-degrades-to-the-generic-error: failed ==> result == valueOf(box(e)) [C11]
+//@   ensures unregistered-code-stays-generic: (errors == nil || !present(errors.byCode, e.Code)) ==> result == valueOf(box(e)) [C11]
+//@   ensures registered-form-pointer-or-value: !failed && errors != nil && present(errors.byCode, e.Code) ==> result == ite(KindOf(errors.byCode[e.Code]) == 22, built, elemOf(built)) [C11]
+
+//@ func (*rpcFunc).processResponse
+//@   modifies nothing
+//@   at call (reflect.Value).Set: assert error-output-only-for-error-responses: resp.Error != nil && calls(val) == 1 [C11]
+//@   ensures error-output-set-iff-response-has-error: fn.errOut != -1 ==> (calls(Set) == 1) == (resp.Error != nil) [C11]
+//@   ensures outputs-sized-and-value-in-place: len(result) == fn.nout && (fn.valOut != -1 ==> result[fn.valOut] == rval) [C11,C01]
+//@   requires descriptor-wellformed: wfRpcFunc(fn) [C01,C11,C10]
+//@   nopanic [C10]
+
+//@ func processFuncOut
+//@   safety
+//@   modifies nothing
+//@   may_panic
+//@   ensures count: result2 == NumOut(funcType) && result2 <= 2 [C01,C12,C11]
+//@   ensures none: result2 == 0 ==> result0 == -1 && result1 == -1 [C01]
+//@   ensures one: result2 == 1 ==> (OutT(funcType, 0) == errorType ==> result0 == -1 && result1 == 0) && (OutT(funcType, 0) != errorType ==> result0 == 0 && result1 == -1) [C01,C11]
+//@   ensures two: result2 == 2 ==> result0 == 0 && result1 == 1 && OutT(funcType, 1) == errorType [C01,C11]
+
+//@ func (*handler).register
+//@   safety
+//@   may_panic
+//@   requires tables-allocated: s.methods != nil && s.methodNameFormatter != nil [C12,C01]
+//@   modifies handler.methods
+//@   requires existing-entries-wellformed: handlersOK(s) [C12,C01,C10]
+//@   loop 1 invariant table-stays-wellformed: handlersOK(s) [C12,C01,C10]
+//@   loop 2 invariant raw-needs-param: i >= 0 && (hasRawParams ==> ins >= 1) && handlersOK(s) [C12,C01,C10]
+//@   ensures table-wellformed-after-registration: handlersOK(s) [C12,C01,C10]
+//@   at ret dyn:s.methodNameFormatter: let fmtRes = $result0
+//@   at call dyn:s.methodNameFormatter: assert formats-namespace-and-method-name: $0 == namespace && $1 == method.Name [C12]
+//@   at mapset handler.methods: assert registered-under-formatted-name: $key == fmtRes [C12]
+//@   at mapset handler.methods: assert stores-wellformed-handler: wfHandler($val) [C12,C01,C10]
+//@   at mapset handler.methods: assert handler-binds-this-method: $val.handlerFunc == method.Func && $val.receiver == val [C12,C01]
+//@   at mapset handler.methods: assert param-count-from-signature: $val.nParams == NumIn(rtypeOf(method.Func)) - 1 - $val.hasCtx [C12,C01]
+//@   at mapset handler.methods: assert ctx-detected-from-signature: ($val.hasCtx == 1) == (NumIn(rtypeOf(method.Func)) >= 2 && InT(rtypeOf(method.Func), 1) == contextType) [C12,C01]
+
+//@ func (*RPCServer).AliasMethod
+//@   modifies handler.aliasedMethods
+//@   requires s.handler != nil && s.handler.aliasedMethods != nil
+//@   at mapset handler.aliasedMethods: assert alias-maps-to-original: $key == alias && $val == original [C12]
+//@   ensures one-entry: true [C12]
+
+//@ func WithClientHandlerAlias$1
+//@   requires c != nil && c.aliasedHandlerMethods != nil
+//@   at mapset Config.aliasedHandlerMethods: assert alias-maps-to-original: $key == alias && $val == original [C12,C16]
+
+//@ func NewMethodNameFormatter$1
+//@   safety
+//@   modifies nothing
+//@   nopanic [C12]
+//@   ensures with-namespace: includeNamespace ==> result == strcat(strcat(namespace, "."), ite(nameCase == 1 && len(method) > 0, strcat(lowerOf(substr(method, 0, 1)), substr(method, 1, len(method))), method)) [C12]
+//@   ensures without-namespace: !includeNamespace ==> result == ite(nameCase == 1 && len(method) > 0, strcat(lowerOf(substr(method, 0, 1)), substr(method, 1, len(method))), method) [C12]
+
+//@ func (*client).makeRpcFunc
+//@   may_panic
+//@   requires formatter-configured: c.methodNameFormatter != nil [C12]
+//@   ghost tagName : U = nil
+//@   ghost tagOK : Bool = false
+//@   at ret (reflect.StructTag).Lookup: set tagName = $result0
+//@   at ret (reflect.StructTag).Lookup: set tagOK = $result1
+//@   at ret dyn:c.methodNameFormatter: let fmtRes = $result0
+//@   at call dyn:c.methodNameFormatter: assert formats-namespace-and-field-name: $0 == c.namespace && $1 == f.Name [C12]
+//@   at call (reflect.StructTag).Lookup: assert looks-up-method-tag: $1 == "rpc_method" [C12]
+//@   at store rpcFunc.name: assert name-is-tag-or-formatted: $val == ite(tagOK, tagName, fmtRes) [C12]
+//@   ghost tagRetry : U = nil
+//@   ghost tagNotify : U = nil
+//@   at ret (reflect.StructTag).Get: set tagRetry = ite($1 == "retry", $result0, tagRetry)
+//@   at ret (reflect.StructTag).Get: set tagNotify = ite($1 == "notify", $result0, tagNotify)
+//@   at store rpcFunc.retry: assert retry-only-when-tagged: $val == (tagRetry == "true") [C04,C05]
+//@   at store rpcFunc.notify: assert notify-only-when-tagged: $val == (tagNotify == "true") [C04]
+//@   at store rpcFunc.client: assert every-proxy-shares-the-one-client: $val == c [C02]
+//@   at store rpcFunc.ftyp: assert proxy-typed-as-the-field: $val == f.Type [C01]
+//@   at store rpcFunc.hasCtx: assert ctx-detected-from-signature: $val == 1 && NumIn(f.Type) > 0 && InT(f.Type, 0) == contextType [C01]
+//@   at store rpcFunc.hasRawParams: assert raw-params-only-as-sole-argument: $val ==> NumIn(f.Type) == fun.hasCtx + 1 && InT(f.Type, fun.hasCtx) == rtRawParams [C01]
+//@   at call reflect.MakeFunc: assert proxy-runs-handleRpcCall: isfn($1, "(*rpcFunc).handleRpcCall") && $0 == f.Type [C01,C04]
+
+//@ func doCall
+//@   safety
+//@   modifies nothing
+//@   nopanic [C13]
+//@   ensures result-shape: result1 == nil ==> len(result0) == NumOut(rtypeOf(f)) && (forall i :: 0 <= i && i < len(result0) ==> rtypeOf(result0[i]) == OutT(rtypeOf(f), i)) [C13,C10,C01]
+//@   ensures panic-is-error: didpanic() ==> result1 != nil && result1 == panicErr [C13]
+//@   ghost panicErr : U = nil
+//@   at ret xerrors.Errorf: set panicErr = $result0
+//@   at call xerrors.Errorf: assert error-mentions-method-and-raw-payload: unbox($1[0], #string) == methodName && $1[1] == i && i != nil [C13]
+
+//@ func (*backoff).next
+//@   safety
+//@   modifies nothing
+//@   requires sane-config: 0 <= b.minDelay && b.minDelay <= b.maxDelay [C05]
+//@   ensures in-range: attempt >= 0 ==> b.minDelay <= result && result <= b.maxDelay [C05]
+//@   ensures neg: attempt < 0 ==> result == b.minDelay [C05]
+
+//@ func websocketClient
+//@   may_panic
+//@   nosafety
+//@   loop 1 invariant reverse-handler-table-wellformed: handlersOK(h) [C10,C12,C16]
+//@   at store handler.aliasedMethods: assert reverse-handler-uses-configured-aliases: $val == config.aliasedHandlerMethods [C16,C12]
+//@   at call (*handler).register: assert reverse-handlers-registered-under-their-namespace: $1 == reverseHandler.ns && $2 == reverseHandler.hnd [C16,C12]
+//@   at store wsConn.handler: assert connection-dispatches-to-reverse-handler: len(config.reverseHandlers) > 0 ==> $val != nil [C16]
+//@   at store wsConn.handler: assert no-handler-means-nil-interface: len(config.reverseHandlers) == 0 ==> $val == nil [C10]
+//@   at store wsConn.exiting: assert closer-waits-on-this-connections-exit: $val == exiting [C16,C18]
+//@   at store client.exiting: assert callers-watch-this-connections-exit-signal: $val != nil && $val == exiting [C03,C16]
+//@   at store wsConn.connFactory: assert no-reconnect-drops-the-dial-factory: config.noReconnect ==> $val == nil [C05]
+//@   at store wsConn.reconnectBackoff: assert uses-configured-backoff: $val == config.reconnectBackoff [C05]
+//@   at store wsConn.timeout: assert stall-detection-uses-the-configured-timeout: $val == config.timeout [C03,C05]
+//@   at store wsConn.pingInterval: assert uses-the-configured-ping-interval: $val == config.pingInterval [C03]
+
+//@ func (*client).setupRequestChan$1
+//@   ghost pendingCancel : Bool = false
+//@   ghost cancelsSent : Int = 0
+//@   at send requests: assert enqueues-the-callers-request-first: calls(Marshal) == 0 ==> $val == cr [C02,C04]
+//@   at recv ctxDone: set pendingCancel = true
+//@   at call reflect.ValueOf: assert cancel-names-the-waiting-call: $0 == cr.req.ID [C06]
+//@   at send requests: assert cancel-message-shape: calls(Marshal) == 1 ==> $val.req.Method == "xrpc.cancel" && $val.req.ID == nil && $val.req.Params == rp && $val.ready != nil && isfreshchan($val.ready) [C06,C02]
+//@   at send requests: set pendingCancel = false
+//@   ghost exitBeforeEnqueue : Bool = false
+//@   ghost mErr : Bool = false
+//@   at recv c.exiting: set exitBeforeEnqueue = exitBeforeEnqueue || calls(Marshal) == 0
+//@   at ret encoding/json.Marshal: set mErr = $result1 != nil
+//@   at recv c.exiting: set pendingCancel = false
+//@   at recv c.exiting: assert exit-alternative-present: true [C03,C15,C16]
+//@   at makechan: assert cancel-mailbox-buffered: chancap($chan) >= 1 [C15]
+//@   loop 1 invariant cancel-never-silently-dropped: !pendingCancel && calls(Marshal) <= 1 [C06]
+//@   at recv cr.ready: let got = $val
+//@   ensures returns-what-arrived-in-own-mailbox: result1 == nil ==> defined(got) && result0 == got [C02]
+//@   ensures gives-up-only-when-client-exits-or-cancel-cannot-be-encoded: result1 != nil ==> exitBeforeEnqueue || mErr [C11,C02,C03]
+
+//@ func (*rpcFunc).handleRpcCall
+//@   at call sync/atomic.AddInt64: assert request-ids-come-from-the-connection-wide-counter: fieldof($0) == "client.idCtr" [C02,C06,C16]
+//@   may_panic
+//@   requires wfRpcFunc(fn) && len(args) >= fn.hasCtx && fn.client.doRequest != nil
+//@   ghost lastCode : Int = 0
+//@   ghost lastErrNil : Bool = true
+//@   ghost slept : Bool = true
+//@   at ret (*client).sendRequest: set lastErrNil = $result0.Error == nil
+//@   at ret (*client).sendRequest: set lastCode = ite($result0.Error == nil, 0, $result0.Error.Code)
+//@   at call (*client).sendRequest: assert resend-only-when-tagged-and-temporary: calls(sendRequest) > 0 ==> fn.retry && !lastErrNil && lastCode == -1111111 && slept [C04,C05]
+//@   at call (*client).sendRequest: assert sends-the-same-request: $2.ID == id && $2.Method == fn.name && (fn.notify ==> $2.ID == nil) && (!fn.notify ==> $2.ID != nil) [C04,C02,C01]
+//@   at ret (*client).sendRequest: set slept = false
+//@   at call time.Sleep: set slept = true
+//@   at call time.Sleep: assert retry-spaced-by-backoff: $0 >= methodMinRetryDelay && $0 <= methodMaxRetryDelay [C05]
+//@   loop 2 invariant retry-state: attempt >= 0 && (calls(sendRequest) == 0 || (fn.retry && !lastErrNil && lastCode == -1111111 && slept)) && (attempt == 0) == (calls(sendRequest) == 0) [C04,C05]
+//@   loop 1 invariant args-marshalled-positionally: len(params) == len(args) - fn.hasCtx && (forall k :: 0 <= k && k <= rangeindex ==> (!present(fn.client.paramEncoders, rtypeOf(args[fn.hasCtx + k])) ==> params[k].v == args[fn.hasCtx + k])) [C01]
+//@   at call encoding/json.Marshal: assert marshals-every-positional-argument-in-order: unbox($0, #[]param) == params && rangeindex == len(params) && (forall k :: 0 <= k && k < len(params) ==> (!present(fn.client.paramEncoders, rtypeOf(args[fn.hasCtx + k])) ==> params[k].v == args[fn.hasCtx + k])) [C01]
+//@   at call (*client).sendRequest: assert request-carries-the-marshalled-params: $2.Params == serializedParams && $2.Jsonrpc == "2.0" [C01,C09]
+//@   at call reflect.New: assert result-decoded-into-the-declared-result-type: $0 == OutT(fn.ftyp, fn.valOut) && fn.valOut != -1 [C01]
+//@   at ret reflect.New: let rval = $result0
+//@   at call encoding/json.Unmarshal: assert decodes-the-response-result: $0 == resp.Result && $1 == ifaceOf(rval) && resp.Result != nil [C01]
+//@   at call processResponse: assert hands-back-the-decoded-value: calls(New) >= 1 ==> $2 == elemOf(rval) [C01]
+//@   at call processResponse: assert response-id-checked: fn.notify || resp.ID == req.ID [C02]
+//@   at call normalizeID: assert fresh-counter-id: calls(AddInt64) == 1 [C02]
+//@   ensures at-most-one-send-unless-retry-tagged: !fn.retry ==> calls(sendRequest) <= 1 [C04]
+
+//@ func (*client).provide
+//@   may_panic
+//@   ghost lastProxy : U = nil
+//@   at ret makeRpcFunc: set lastProxy = $result0
+//@   at call makeRpcFunc: assert builds-proxy-from-this-field: calls(makeRpcFunc) == calls(Set) [C04,C01]
+//@   at call (reflect.Value).Set: assert every-field-gets-its-own-proxy: $1 == lastProxy && calls(makeRpcFunc) == calls(Set) + 1 [C04,C01]
+//@   loop 2 invariant one-proxy-per-field: calls(makeRpcFunc) == calls(Set) && i >= 0 [C04,C01]
+
+//@ func httpClient$1
+//@   at call (*net/http.Request).WithContext: assert request-carries-the-callers-context: $1 == ctx [C06]
+//@   ensures caller-context-attached: calls(Do) == 1 && ctx != nil ==> calls(WithContext) == 1 [C06]
+//@   at call (net/http.Header).Set: assert request-not-marked-idempotent: $1 != "Idempotency-Key" && $1 != "X-Idempotency-Key" [C04]
+//@   at call net/http.NewRequest: assert sent-as-post: $0 == "POST" [C04]
+//@   at store net/http.Request.Header: assert sends-the-configured-headers: calls(Clone) == 1 [C01]
+//@   ensures one-http-exchange: calls(Do) <= 1 [C04]
+//@   ghost doErr : U = nil
+//@   ghost didDo : Bool = false
+//@   at ret (*net/http.Client).Do: set doErr = $result1
+//@   at ret (*net/http.Client).Do: set didDo = true
+//@   at ret (*net/http.Client).Do: let hresp = $result0
+//@   ensures every-json-rpc-reply-is-decoded-whatever-its-length: didDo && doErr == nil && old(cr.req.ID) != nil && !(hresp.StatusCode > 400 && hresp.StatusCode != 500) ==> calls(Decode) == 1 [C13,C11,C01,C09]
+//@   ensures answer-carries-request-id: result1 == nil && cr.req.ID != nil ==> result0.ID == cr.req.ID [C02]
+
+//@ func NewCustomClient$1
+//@   ensures answer-carries-request-id: result1 == nil && cr.req.ID != nil ==> result0.ID == cr.req.ID [C02]
+//@   ensures one-exchange: calls(doRequest) <= 1 [C04]
+
+//@ func (*client).sendRequest
+//@   at makechan: assert response-mailbox-buffered: chancap($chan) >= 1 [C15,C02,C03]
+//@   at call dyn:c.doRequest: assert fresh-mailbox-per-call: $1.req == req && $1.retCh == chCtor && $0 == ctx [C02,C15]
+
+//@ func (*wsConn).handleChanOut
+//@   at recv c.exiting: assert exit-alternative-present: true [C15,C16]
+//@   at ret sync/atomic.AddUint64: let freshID = $result0
+//@   at send c.registerCh: assert registers-under-fresh-channel-id: $val.reqID == req && $val.ch == ch && $val.chID == freshID [C07]
+//@   ensures fresh-channel-id: calls(AddUint64) == 1 [C07]
+
+//@ func (*RPCServer).handleWS
+//@   ghost built : Bool = false
+//@   at ret dyn:s.reverseClientBuilder: set built = true
+//@   ghost bctx : U = nil
+//@   at ret dyn:s.reverseClientBuilder: set bctx = $result0
+//@   at call dyn:s.reverseClientBuilder: assert builder-gets-this-connection: $1 == wc && $0 == ctx [C16]
+//@   at call runtime/pprof.Do: assert connection-loop-gets-the-augmented-context: $0 == ite(built, bctx, ctx) [C16,C15]
+//@   at store wsConn.exiting: assert fresh-exit-signal-per-connection: $val != nil && chancap($val) == 0 [C16,C15]
+//@   ensures socket-released-after-loop: calls(Upgrade) == 1 [C15]
+
+//@ func (*RPCServer).ServeHTTP
+//@   at ret (*net/http.Request).Context: let rctx = $result0
+//@   at call handleReader: assert http-handler-context-derives-from-request: ctxParent($1) == rctx [C06]
+//@   at call handleWS: assert ws-context-derives-from-request: ctxParent($1) == rctx [C06,C15]
+
+//@ func WithReverseClient$1$1
+//@   may_panic
+//@   initphase -- runs in handleWS before the connection loop starts: the wsConn is not shared yet
+//@   at store client.exiting: assert reverse-client-is-per-connection: isfresh($obj) && $val == conn.exiting [C16]
+//@   at store client.namespace: assert reverse-client-is-per-connection: isfresh($obj) [C16]
+//@   at store client.methodNameFormatter: assert reverse-calls-use-the-servers-final-formatter: $val == c.methodNameFormatter [C16,C12]
+//@   at call (*client).setupRequestChan: assert queue-built-for-this-client: isfresh($0) [C16]
+//@   at ret (*client).setupRequestChan: let rq = $result0
+//@   at store wsConn.requests: assert connection-serves-this-clients-queue: $obj == conn && $val == rq [C16]
+//@   at call (*client).provide: assert proxy-filled-by-this-client: isfresh($0) && calls(setupRequestChan) == 1 [C16]
+//@   at call context.WithValue: assert stored-under-type-key-in-callers-context: $0 == ctx && $2 == box(calls) && isfresh(calls) [C16]
+//@   at call (*client).provide: assert proxy-struct-is-per-connection: isfresh(calls) [C16]
+//@   ensures error-or-context: result1 == nil ==> result0 != nil && ctxParent(result0) == ctx [C16]
+
+//@ func ExtractReverseClient
+//@   modifies nothing
+//@   at call (context.Context).Value: assert looks-up-in-the-handlers-context: $0 == ctx [C16]
+//@   ensures present-only-when-a-non-nil-proxy-is-stored-under-the-key: result1 == (ok && c != nil) [C16]
+
+//@ func makeHandler
+//@   modifies nothing
+//@   ensures fresh-empty-tables: result != nil && result.methods != nil && result.aliasedMethods != nil && (forall k: U :: !present(result.methods, k)) && (forall k: U :: !present(result.aliasedMethods, k)) [C12,C16,C01]
+//@   ensures carries-configuration: result.methodNameFormatter == sc.methodNameFormatter && result.maxRequestSize == sc.maxRequestSize && result.paramDecoders == sc.paramDecoders && result.errors == sc.errors [C12,C10,C11]
+
+//@ func (*client).makeOutChan$1$1
+//@   requires incoming != nil
+//@   at call reflect.Select: assert always-ready-to-receive-and-to-stop: len($0) >= 2 && $0[0].Dir == 2 && $0[1].Dir == 2 && $0[1].Chan == valueOf(box(incoming)) && (len($0) == 3) == (listlen(buf) > 0) [C07]
+//@   at call (*container/list.List).PushBack: assert buffers-in-arrival-order: $0 == buf && ok [C07,C08]
+//@   at call (*container/list.List).Remove: assert removes-the-head-that-was-delivered: $0 == buf && $1 == front && chosen == 2 [C07,C08]
+//@   at call (reflect.Value).Elem: assert offers-the-oldest-buffered-value: calls(Front) >= 1 && front != nil [C07,C08]
+//@   at call (reflect.Value).Close: assert closes-only-when-cancelled-or-drained: chosen == 0 || (incoming == nil && listlen(buf) == 0) [C07,C08]
+//@   loop 1 invariant never-idle-with-stream-ended-and-drained: !(incoming == nil && listlen(buf) == 0) && listlen(buf) >= 0 [C08]
+//@   ensures closes-exactly-once-before-exit: calls(Close) == 1 [C08]
+
+//@ func (*Errors).Register
+//@   may_panic
+//@   requires e.byType != nil && e.byCode != nil
+//@   ghost nType : Int = 0
+//@   ghost nCode : Int = 0
+//@   at ret (reflect.Type).Elem: let rt = $result0
+//@   at mapset Errors.byType: assert type-registered-exactly-as-given: $key == rt && $val == c [C11]
+//@   at mapset Errors.byType: inc nType
+//@   at mapset Errors.byType: assert only-error-types-registered: rImplements($key, errorType) [C11]
+//@   at mapset Errors.byCode: assert code-maps-back-to-that-type: $key == c && $val == rt [C11]
+//@   at mapset Errors.byCode: inc nCode
+//@   ensures exactly-one-entry-each-way: nType == 1 && nCode == 1 [C11]
+
+//@ func NewErrors
+//@   at mapset: assert connection-error-code-preregistered: $key == -1111111 [C05,C11]
+
+//@ func (*rpcFunc).processError
+//@   requires wfRpcFunc(fn)
+//@   ensures outputs-sized: len(result) == fn.nout [C11,C01]
+//@   at call reflect.ValueOf: assert wraps-the-transport-error: unbox($0, #*ErrClient).err == err [C11]
+
+//@ func (*JSONRPCError).Error
+//@   modifies nothing
+//@   ensures user-codes-give-message-verbatim: !(e.Code >= -32768 && e.Code <= -32000) ==> result == e.Message && calls(Sprintf) == 0 [C11]
+//@   ensures reserved-codes-are-prefixed: (e.Code >= -32768 && e.Code <= -32000) ==> calls(Sprintf) == 1 [C11]
+
+//@ func (*param).UnmarshalJSON
+//@   safety
+//@   ensures keeps-a-private-copy-of-the-raw-bytes: result == nil && len(p.data) == len(raw) && p.data.base != raw.base && (forall k :: 0 <= k && k < len(raw) ==> p.data[k] == raw[k]) [C01,C07]
+
+//@ func (*param).MarshalJSON
+//@   ghost mres : U = nil
+//@   at call encoding/json.Marshal: assert marshals-the-wrapped-value: $0 == ifaceOf(p.v) && KindOf(rtypeOf(p.v)) != 0 [C01,C07]
+//@   ensures raw-bytes-pass-through: KindOf(rtypeOf(p.v)) == 0 ==> result0 == p.data && result1 == nil && calls(Marshal) == 0 [C01]
+//@   ensures value-marshalled-once: KindOf(rtypeOf(p.v)) != 0 ==> calls(Marshal) == 1 [C01,C07]
+
+//@ func WithErrors$1
+//@   at store Config.errors: assert error-table-passed-through-unchanged: $val != nil && $val.byCode == es.byCode && $val.byType == es.byType [C05,C11]
+
+//@ func WithServerErrors$1
+//@   at store ServerConfig.errors: assert error-table-passed-through-unchanged: $val != nil && $val.byCode == es.byCode && $val.byType == es.byType [C11]
+
+//@ func defaultConfig
+//@   ensures every-client-gets-its-own-option-maps: isfresh(result.paramEncoders) && isfresh(result.aliasedHandlerMethods) [C01,C12,C16]
+
+//@ func defaultServerConfig
+//@   ensures every-server-gets-its-own-option-maps: isfresh(result.paramDecoders) [C01,C12]
+//@   ensures starts-without-custom-decoders: result.paramDecoders != nil && (forall t: U :: !present(result.paramDecoders, t)) [C01,C12,C10]
+
+//@ -- ------------------------------------------------------------------ options, constructors and small closures (configuration reaches the mechanisms unchanged)
+//@ func WithMaxRequestSize$1
+//@   nosafety
+//@   at store ServerConfig.maxRequestSize: assert limit-is-the-configured-value: $val == max [C10]
+
+//@ func WithReconnectBackoff$1
+//@   at store Config.reconnectBackoff: assert backoff-is-the-configured-pair: $val.minDelay == minDelay && $val.maxDelay == maxDelay [C05]
+
+//@ func WithNoReconnect$1
+//@   at store Config.noReconnect: assert option-disables-reconnect: $val [C05]
+
+//@ func WithMethodNameFormatter$1
+//@   at store Config.methodNamer: assert client-uses-the-given-formatter: $val == namer [C12]
+
+//@ func WithServerMethodNameFormatter$1
+//@   at store ServerConfig.methodNameFormatter: assert server-uses-the-given-formatter: $val == formatter [C12]
+
+//@ func WithParamEncoder$1
+//@   may_panic
+//@   at mapset Config.paramEncoders: assert encoder-keyed-by-the-parameter-type: $val == encoder [C01]
+
+//@ func WithParamDecoder$1
+//@   may_panic
+//@   at mapset ServerConfig.paramDecoders: assert decoder-keyed-by-the-parameter-type: $val == decoder [C01]
+
+//@ func WithClientHandler$1
+//@   at store Config.reverseHandlers: assert appends-this-handler: len($val) == len(old(c.reverseHandlers)) + 1 [C16]
+
+//@ func NewServer
+//@   may_panic
+//@   nosafety
+//@   at call makeHandler: assert handler-built-from-the-final-configuration: $0 == config [C10,C12]
+//@   at store RPCServer.reverseClientBuilder: assert reverse-builder-from-configuration: $val == config.reverseClientBuilder [C16]
+//@   at store RPCServer.pingInterval: assert ping-interval-from-configuration: $val == config.pingInterval [C12,C10]
+
+//@ func (*RPCServer).HandleRequest
+//@   nosafety
+//@   requires server-tables-wellformed: s.handler != nil && handlersOK(s.handler)
+//@   at call handleReader: assert plain-requests-use-the-standard-error-writer: $1 == ctx && $2 == r && $3 == w && isfn($4, "rpcError") [C09,C10]
+
+//@ func (*RPCServer).Register
+//@   may_panic
+//@   requires server-tables-wellformed: s.handler != nil && handlersOK(s.handler) && s.handler.methodNameFormatter != nil
+//@   at call register: assert registers-under-the-given-namespace: $1 == namespace && $2 == handler [C12]
+
+//@ func NewMergeClient
+//@   may_panic
+//@   at call websocketClient: assert ws-client-gets-the-configured-options: $1 == addr && $2 == namespace && $3 == outs && $5 == config [C12,C01]
+//@   at call httpClient: assert http-client-gets-the-configured-options: $1 == addr && $2 == namespace && $3 == outs && $5 == config [C12,C01]
+
+//@ func NewCustomClient
+//@   may_panic
+//@   ghost built : Bool = false
+//@   at store client.methodNameFormatter: set built = true
+//@   at dyncall o: assert every-option-applied-before-the-client-is-built: !built [C12,C01,C11]
+//@   loop 1 invariant no-client-field-read-while-options-run: !built [C12,C01,C11]
+//@   at store client.methodNameFormatter: assert uses-configured-formatter: $val == config.methodNamer [C12,C01]
+//@   at store client.paramEncoders: assert uses-configured-encoders: $val == config.paramEncoders [C01]
+//@   at store client.errors: assert uses-configured-error-table: $val == config.errors [C11,C01]
+//@   at store client.doRequest: assert installs-the-custom-transport: isfn($val, "NewCustomClient$1") [C01]
+
+//@ func httpClient
+//@   may_panic
+//@   at store client.methodNameFormatter: assert uses-configured-formatter: $val == config.methodNamer [C12,C01]
+//@   at store client.paramEncoders: assert uses-configured-encoders: $val == config.paramEncoders [C01]
+//@   at store client.errors: assert uses-configured-error-table: $val == config.errors [C11,C01]
+//@   at store client.doRequest: assert installs-the-http-transport: isfn($val, "httpClient$1") [C01]
+
+//@ func DecodeParams
+//@   at call encoding/json.Unmarshal: assert decodes-the-raw-params-verbatim: len($0) == len(p) && $0.base == p.base [C01]
+
+//@ func (*deadlineResetReader).Read
+//@   ghost rn : Int = 0
+//@   ghost rerr : U = nil
+//@   at call (io.Reader).Read: assert reads-into-the-callers-buffer-once: $1 == p && calls(Read) == 0 [C01,C14,C03]
+//@   at ret (io.Reader).Read: set rn = $result0
+//@   at ret (io.Reader).Read: set rerr = $result1
+//@   ensures frame-bytes-pass-through-unchanged: result0 == rn && result1 == rerr [C01,C14,C03]
+//@   at store deadlineResetReader.lastReset: assert the-slow-read-clock-restarts-only-when-the-deadline-was-renewed: calls(reset) == 1 [C01,C03]
+
+//@ func (*handler).handleReader$1
+//@   requires cb != nil
+//@   at dyncall cb: assert hands-out-the-reply-writer: $0 == w [C09]
+//@   ensures callback-exactly-once: calls(cb) == 1 [C09,C15]
+
+//@ func (*handler).handleReader$2
+//@   requires cb != nil
+//@   ensures callback-exactly-once: calls(cb) == 1 [C09,C15]
+
+//@ func (*wsConn).handleCall$1
+//@   requires cb != nil
+//@   ensures callback-exactly-once: calls(cb) == 1 [C09,C15]
+
+//@ func (*lazyWriter).Write$1
+//@   ensures asks-the-provider-once: calls(withWriterFunc) == 1 [C15,C14]
+
+//@ func websocketClient$1
+//@   ensures dial-failure-is-a-typed-connection-error: result1 != nil ==> istype(result1, #*RPCConnectionError) && result0 == nil [C05]
+
+//@ func websocketClient$2$1
+//@   at call handleWsConn: assert connection-loop-runs-under-the-labelled-client-context: $0 == wconn && $1 == ctx [C16,C15]
+
+//@ func websocketClient$3
+//@   at close stop: assert closer-signals-stop-first: true [C03,C18]
+//@   at recv exiting: assert closer-waits-for-the-loop-to-finish: calls(close) >= 0 [C03,C18]
+
+//@ func (*RPCServer).handleWS$1
+//@   at call handleWsConn: assert connection-loop-runs-under-the-labelled-context: $0 == wc && $1 == ctx [C15,C16]
+
+//@ func (*client).makeOutChan$1
+//@   may_panic
+//@   requires valid-result-index: 0 <= valOut && valOut < NumOut(ftyp)
+//@   at go makeOutChan$1$1: assert buffer-goroutine-started-before-sink-is-handed-out: true [C07,C08]
+//@   ensures sink-and-context: result1 != nil && result0 == ctx [C07,C08,C06]
+
+//@ func (*client).setupRequestChan
+//@   at makechan: assert request-queue-unbuffered: chancap($chan) == 0 [C03,C02]
+//@   at store client.doRequest: assert installs-the-websocket-transport: isfn($val, "(*client).setupRequestChan$1") [C01,C02]
+
+//@ func (*wsConn).setupPings$1
+
+//@ func (*wsConn).setupPings$2
+
+//@ func (*wsConn).setupPings$5$1
+//@   at close stop: assert stops-the-ping-loop: true [C14,C08]
+
+//@ func (*ErrClient).Error
+//@   modifies nothing
+
+//@ func (*ErrClient).Unwrap
+//@   modifies nothing
+//@   ensures unwraps-the-transport-error: result == e.err [C11]
+
+//@ func (*RPCConnectionError).Error
+//@   modifies nothing
+//@   safety
+//@   nopanic [C05]
+//@   at call (error).Error: assert wrapped-error-consulted-only-when-present: e.err != nil [C05]
+
+//@ func (*RPCConnectionError).Unwrap
+//@   modifies nothing
+//@   ensures unwraps-the-dial-error-when-present: e.err != nil ==> result == e.err [C05]
